@@ -754,6 +754,10 @@ func (p *Parser) parseForEach() ast.Expression {
 
 	// get the id
 	p.nextToken()
+	if !p.curTokenIs(token.IDENT) {
+		p.errors = append(p.errors, fmt.Sprintf("the variable of a foreach loop must be an identifier, got %v around %s", p.curToken, p.curToken.Position()))
+		return nil
+	}
 	expression.Ident = p.curToken.Literal
 
 	// If we find a "," we then get a second identifier too.
@@ -867,6 +871,12 @@ func (p *Parser) parseFunctionParameters() []*ast.Identifier {
 
 		if p.curTokenIs(token.EOF) {
 			p.errors = append(p.errors, "unterminated function parameters found end of file")
+			return nil
+		}
+
+		// Parameters must be identifiers.
+		if !p.curTokenIs(token.IDENT) {
+			p.errors = append(p.errors, fmt.Sprintf("function parameters must be identifiers, got %v around %s", p.curToken, p.curToken.Position()))
 			return nil
 		}
 
